@@ -96,6 +96,13 @@ def gen_write():
             npts = 2
             fns.append(f'pub fn {nm}<S: Src>(s: &mut S) {{\n    b2_body::<S, {TYPES[kind]}>(s, {m}, 1, {npts})\n}}')
             hs.append(f'    {REC_STUBS} #[kani::unwind(22)] {nm};')
+    # path type pinned to concrete values (code whose record shape depends on it stays tractable)
+    for kind, full in ((1, 1507), (4, 1663)):
+        for pt in (0, 1, 2, 4):
+            t = 'q' if (kind, pt) == (1, 2) else 's'
+            nm = f'c02_{t}_b2_e{kind}_m{full}_pt{pt}'
+            fns.append(f'pub fn {nm}<S: Src>(s: &mut S) {{\n    b2_body_pin::<S, {TYPES[kind]}>(s, {full}, 1, 2, {pt})\n}}')
+            hs.append(f'    {REC_STUBS} #[kani::unwind(22)] {nm};')
     for (t, ns, ne, k0, m) in (('t', 1, 1, 3, 2047), ('t', 2, 2, 0, 2047), ('t', 2, 2, 3, 0), ('t', 1, 2, 5, 1031), ('q', 0, 0, 0, 0)):
         nm = f'c02_{t}_b2_lib_{ns}x{ne}_k{k0}_m{m}'
         fns.append(f'pub fn {nm}<S: Src>(s: &mut S) {{\n    b2_lib_body(s, {ns}, {ne}, {k0}, {m})\n}}')
@@ -151,6 +158,16 @@ def gen_read():
             t = 'q' if (full and kind in (1, 3)) else 's'
             nm = f'c03_{t}_r2_e{kind}_m{m}'
             fns.append(f'pub fn {nm}<S: Src>(s: &mut S) {{\n    elem_rt_body::<S, {TYPES[kind]}>(s, {m}, 1, {npts}, false)\n}}')
+            hs.append(f'    {PARSE_STUBS} #[kani::unwind(22)] {nm};')
+    for kind, full in ((1, 483), (4, 639)):
+        for pt in (0, 1, 2, 4):
+            t = 'q' if (kind, pt) == (1, 2) else 's'
+            nm = f'c01_{t}_l2a_e{kind}_m{full}_pt{pt}'
+            fns.append(f'pub fn {nm}<S: Src>(s: &mut S) {{\n    elem_rt_body_pin::<S, {TYPES[kind]}>(s, {full}, 1, 2, true, {pt})\n}}')
+            hs.append(f'    {PARSE_STUBS} #[kani::unwind(22)] {nm};')
+            t = 'q' if (kind, pt) == (4, 0) else 's'
+            nm = f'c03_{t}_r2_e{kind}_m{full}_pt{pt}'
+            fns.append(f'pub fn {nm}<S: Src>(s: &mut S) {{\n    elem_rt_body_pin::<S, {TYPES[kind]}>(s, {full}, 1, 2, false, {pt})\n}}')
             hs.append(f'    {PARSE_STUBS} #[kani::unwind(22)] {nm};')
     # one property on each element kind (all other optional fields absent / all present)
     for kind in range(7):
